@@ -264,7 +264,10 @@ class C14(Check):
             return env.new(items), items
         if kind == "set":
             try:
-                return set(items), items
+                st = set(items)
+                # (a built-in set identifies items by equality: 1, 1.0 and True collapse into one element, so the
+                # operand's items are what the set actually holds)
+                return st, [x for x in items if any(x is y for y in st)]
             except TypeError:
                 return env.new(items), items
         return items, items
